@@ -176,3 +176,19 @@ fn read_varint(reader: &mut Cursor<&[u8]>) -> Result<u64> {
     }
     Ok(n)
 }
+
+/// Verification hook (guarded): decodes one index record and applies the status filter.
+#[cfg(rusty_blockparser_verif)]
+pub fn verif_decode_record(key: &[u8], value: &[u8]) -> String {
+    match BlockIndexRecord::from(key, value) {
+        Ok(r) => format!(
+            "ok|{}|{}|{}|{}|{}",
+            r.height,
+            r.status,
+            r.blk_index,
+            r.data_offset,
+            (r.status & (BLOCK_VALID_CHAIN | BLOCK_HAVE_DATA) > 0) as u8
+        ),
+        Err(e) => format!("err|{}", e),
+    }
+}
